@@ -23,6 +23,9 @@ Suites
   LINT-project    reference-project mode end to end: a project configuration with 2-4 `paths`
                   entries, ProjectFiles.iter_reference, mirror_reference_and_tests, one changed
                   string per file; L10nLinter().lint as cli.py drives it, and lint.cli.main()
+  LINT-properties-text  .properties files against the end-to-end model (Model/LintProps.v), which
+                  gets only the two texts (it parses them itself), Junk.junkid and the real
+                  checker's results by entity start offset
 The model is fed the implementation's own parse (keys, junk flags, classes, spans),
 Entity.equals for every (file entity, reference entity) pair and the real checker's
 results for (e, e); its findings are rendered to the message texts and compared with the
@@ -898,11 +901,11 @@ def write_file(path, text, rng):
         f.write(data)
 
 
-def gen_file_case(rng, root, sub, extra="random", ref_at=None, lookup_finds=True):
+def gen_file_case(rng, root, sub, extra="random", ref_at=None, lookup_finds=True, fmts=None):
     """writes one file and maybe a reference version; returns the case description.
     ref_at: where the reference lookup will look (None: next to the file's directory);
     lookup_finds=False: the lookup never returns a reference"""
-    fmt = rng.choice(FORMATS)
+    fmt = rng.choice(fmts or FORMATS)
     if extra == "random":
         extra = rng.choice(fmt.extras)
     recs = gen_records(fmt, rng, extra)
@@ -1405,6 +1408,77 @@ def suite_project(chk, model, tmp):
         chk.correspond("LINT-project", cases, impl, outs)
 
 
+# -------------------------------------- .properties from the TEXT alone ---
+def suite_props_text(chk, model, tmp):
+    """the end-to-end model (Model/LintProps.v: parser model, entity objects, Entry.equals over
+    the unescaped values, junk keys, the linter) fed nothing but the two TEXTS, the value of
+    Junk.junkid and the real checker's results by entity start offset"""
+    from compare_locales import parser, checks
+    from compare_locales.paths import File, REFERENCE_LOCALE
+    from compare_locales.lint.linter import L10nLinter
+    rng = chk.rng
+    cases, impl, reqs, decs = [], [], [], []
+
+    def read(path):
+        with open(path, encoding="utf-8", errors="replace", newline=None) as f:
+            return f.read()
+    for i in range(chk.n(500, 6000)):
+        c = gen_file_case(rng, tmp, "t%d" % i, fmts=[FMT_BY_NAME["properties"]])
+        j0 = parser.Junk.junkid
+        got = run_impl(lambda: impl_dicts(L10nLinter().lint_file(c["path"], c["ref"], None)))
+        check_expected(chk, c, got, tmp)
+        if got[0] == 0:
+            got = [0, [r[1:] for r in got[1]]]
+        text = read(c["path"])
+        ref_text = read(c["ref"]) if c["ref"] is not None and os.path.isfile(c["ref"]) else None
+        p = parser.getParser(c["path"])
+        p.readUnicode(text)
+        current = p.parse()
+        checker = checks.getChecker(File(c["path"], c["path"], locale=REFERENCE_LOCALE), extra_tests=None)
+        msgs, results, junk_vals = [], [], {}
+        for e in current:
+            if isinstance(e, parser.Junk):
+                junk_vals[e.span[0]] = e.val
+                continue
+            res = []
+            for tp, pos, msg, cat in checker.check(e, e):
+                msgs.append(msg)
+                kind = 0 if isinstance(pos, checks.EntityPos) else 1
+                res.append([LEVEL[tp], kind, int(pos), 0, len(msgs) - 1, 0])
+            if res:
+                results.append([e.span[0], res])
+        reqs.append((5, [j0, canon(text), opt(ref_text, canon), [results]]))
+
+        def dec(out, msgs=msgs, junk_vals=junk_vals):
+            if out[0] != 0:
+                return out
+            rows = []
+            for lineno, col, lvl, m in out[1]:
+                if m[0] == 0:
+                    msg = "Duplicate string with ID: " + common.l2s(m[1])
+                elif m[0] == 1:
+                    msg = "Changes to string require a new ID: " + common.l2s(m[1])
+                elif m[0] == 2:
+                    msg = ('Unparsed content "%s" from line %d column %d to line %d column %d'
+                           % ((junk_vals.get(m[1]),) + tuple(m[2:6])))
+                else:
+                    msg = msgs[m[1]]
+                rows.append([lineno, col, "error" if lvl == 0 else "warning", msg])
+            return [0, rows]
+        decs.append(dec)
+        cases.append(describe(c))
+        impl.append(got)
+        chk.count(("ptext", c["text"], c["ref_text"], c["mode"]))
+        if i == 4:
+            chk.sample({"suite": "LINT-properties-text", "text": text, "reference": ref_text, "impl": got})
+        shutil.rmtree(os.path.join(tmp, "t%d" % i), ignore_errors=True)
+        shutil.rmtree(os.path.join(tmp, "ref-t%d" % i), ignore_errors=True)
+    if model:
+        outs = model.call(reqs, chunk=500)
+        outs = [d(o) for d, o in zip(decs, outs)]
+        chk.correspond("LINT-properties-text", cases, impl, outs)
+
+
 FMT_BY_NAME = {f.name: f for f in FORMATS}
 
 
@@ -1437,7 +1511,8 @@ def run(chk, runner_ok):
         for suite, args in ((suite_hasparser, ()), (suite_position, ()), (suite_entity_small, ()),
                             (suite_entity, ()),
                             (suite_file, (tmp,)), (suite_lint, (tmp,)),
-                            (suite_inc_sequence, (tmp,)), (suite_project, (tmp,))):
+                            (suite_inc_sequence, (tmp,)), (suite_project, (tmp,)),
+                            (suite_props_text, (tmp,))):
             try:
                 suite(chk, model, *args)
             except Exception:  # noqa: a suite that cannot run is a failed check, not a crash
